@@ -84,6 +84,21 @@ def schedules(fam):
         out.append(SC(fam, "changenested", res,
                       [opn("c1"), sub("c1", "a"), Q, ev("a", "change", k="x", val=R("d"), **st), dict(reply("get", "d"), **st),
                        ev("d", "custom", **st), ev("d", "change", k="w", val=P("5"), **st), dict(reply("get", "e"), **st), Q, ev("d", "custom"), Q]))
+    if fam == "stream":
+        st = dict(settle=True)
+        rr = lambda **kw: dict({"op": "reset", "res": ["a"], "acc": []}, **kw)
+        res2 = {"a": Mo(x=P("1")), "b": Mo(y=P("1"))}
+        # a reset arrives while the initial get is outstanding and its re-fetch is answered first: afterwards events and
+        # further resets must still work
+        out.append(SC(fam, "resetbeforeinit", res2,
+                      [opn("c1"), dict(sub("c1", "a"), **st), rr(**st), dict(reply("get", "a"), pick=1, **st), dict(reply("get", "a"), pick=0, **st),
+                       Q, ev("a", "change", k="x", val=P("2"), **st), Q, {"op": "mutate", "n": "a", "k": "x", "val": P("7")}, rr(**st), Q, ev("a", "custom"), Q]))
+        # a re-fetch that fails (timeout / error) with events meanwhile, then another reset
+        for outc in ("timeout", "err"):
+            out.append(SC(fam, "refetchfail-" + outc, res2,
+                          [opn("c1"), dict(sub("c1", "a"), **st), Q, rr(**st), ev("a", "change", k="x", val=P("2"), **st), ev("a", "custom", **st),
+                           dict(reply("get", "a", out=outc), **st), Q, ev("a", "change", k="x", val=P("3"), **st), Q,
+                           {"op": "mutate", "n": "a", "k": "x", "val": P("7")}, rr(**st), Q]))
     if fam == "gc":
         # issue #241: releasing the last retained path while another parent is loading
         out.append(S(fam, "i241", [opn("c1"), sub("c1", "b"), Q, sub("c1", "a"), conn("c1"), cache("a"), reply("access", "a"),
@@ -116,6 +131,21 @@ def schedules(fam):
                       [opn("c1"), sub("c1", "p1"), sub("c1", "p2"), Q, unsub("c1", "p1"), Q,
                        sub("c1", "p3"), conn("c1"), cache("p3"), reply("access", "p3"), reply("get", "p3"), cache("p3"), cache("p3"), conn("c1"), conn("c1"),
                        unsub("c1", "p2"), conn("c1"), Q, ev("m", "custom"), Q]))
+        # a resource the client has released is kept (rightly marked unsent) by a parent that is still loading; an add
+        # event on a held collection references it: the event must carry its data. Likewise for a failed resource
+        # whose error placeholder the client has dropped.
+        st = dict(settle=True)
+        gres = {"m": Mo(z=P("1")), "col": {"k": "c", "c": [P('"q"')]}, "dp": Mo(child=R("m"), delayed=R("dl")), "dl": Mo(w=P("1")),
+                "dq": Mo(child=R("nf"), delayed=R("dl")), "br": Mo(child=R("nf"))}
+        out.append(SC(fam, "addunsent", gres,
+                      [opn("c1"), sub("c1", "m"), sub("c1", "col"), Q, dict(sub("c1", "dp"), **st), dict(reply("access", "dp"), **st),
+                       dict(reply("get", "dp"), **st), dict(unsub("c1", "m"), **st), ev("col", "add", a=1, val=R("m"), **st),
+                       dict(reply("get", "dl"), **st), Q, ev("m", "custom"), Q]))
+        out.append(SC(fam, "addunsenterr", gres,
+                      [opn("c1"), sub("c1", "col"), Q, dict(sub("c1", "dq"), **st), dict(reply("access", "dq"), **st), dict(reply("get", "dq"), **st),
+                       dict(sub("c1", "br"), **st), dict(reply("access", "br"), **st), dict(reply("get", "br"), **st),
+                       dict(reply("get", "nf", out="notFound"), **st), dict(unsub("c1", "br"), **st), ev("col", "add", a=1, val=R("nf"), **st),
+                       dict(reply("get", "dl"), **st), Q]))
     if fam == "gc":
         # the per-resource limit of 256 direct subscriptions: the request beyond it fails and leaves the count unchanged
         sb = dict(sub("c1", "t"), settle=True)
